@@ -112,6 +112,7 @@ func step(tag string) {
 // C07: k symbolic operations (k = param 0) over the pool {n0, n1}.
 func VerifC07Candidates() {
 	k := vParam(0)
+	vCommittee(vParam(2)) // committee size: every operation needs the Alphabet's 2n/3+1 account
 	vDeploy("netmap", false, nil, nil, nil, []any{})
 	mLeg, mStr, mLegSt, mStrSt = false, false, 0, 0
 	switch vParam(1) { // fixture: n0 held by both lists in different states
